@@ -83,6 +83,7 @@ type world struct {
 	wantRec   []string // the final desired names of this reconcile as delivered to the composer
 	composed   bool    // Compose returned in this reconcile
 	composeErr error
+	fnOverride func(context.Context, string, *fnv1.RunFunctionRequest) (*fnv1.RunFunctionResponse, error)
 }
 
 func (w *world) idOf(name string) string {
@@ -350,7 +351,10 @@ func (w *world) desiredFor(names []string) map[string]*fnv1.Resource {
 	return out
 }
 
-func (w *world) runFunction(_ context.Context, name string, req *fnv1.RunFunctionRequest) (*fnv1.RunFunctionResponse, error) {
+func (w *world) runFunction(ctx context.Context, name string, req *fnv1.RunFunctionRequest) (*fnv1.RunFunctionResponse, error) {
+	if w.fnOverride != nil {
+		return w.fnOverride(ctx, name, req)
+	}
 	step := 1
 	if name == "fn2" {
 		step = 2
@@ -610,6 +614,7 @@ func main() {
 	variants := flag.String("variants", "rotate", "rotate|all: how a model 'fail' is realised (error, conflict, crashBefore)")
 	chunk := flag.Int("chunk", 0, "split the trace into files of about this many events")
 	sweepN := flag.Int("sweep", 0, "number of scenarios to sweep over every real call index x outcome")
+	conds := flag.Bool("conds", false, "the scenarios are C05 condition vectors (spec/Conditions.tla)")
 	extraN := flag.Int("extra", 3, "fault-free reconciles appended to every scenario (to quiescence)")
 	cpuprof := flag.String("cpuprofile", "", "write a CPU profile")
 	flag.Parse()
@@ -619,6 +624,10 @@ func main() {
 		defer pprof.StopCPUProfile()
 	}
 
+	if *conds {
+		condsMain(*scenarios, *tracePath, *sumPath, *chunk)
+		return
+	}
 	raws, err := scen.Load(*scenarios)
 	if err != nil {
 		fmt.Fprintln(os.Stderr, err)
